@@ -188,6 +188,24 @@ Theorem C16_lower_wait_all_n :
 Proof. intros n H. split; [exact (wait_prog_in_grammar n H)|exact (wait_exact n H)]. Qed.
 Print Assumptions C16_lower_wait_all_n.
 
+(** run-time durations [wait_for(self.dur)] / [wait_for(self.dur, allow_zero=True)] ([WaitIn]): lowered to
+    [if dur = 0 then <rest>] (allow_zero only), [counter <<= dur - 1] and the same loop.  For every program of
+    [in_grammar_dur ds] and every input sequence whose duration input is >= 0 (it is an unsigned port) - and
+    >= 1 when the program contains a wait_for(self.dur) without allow_zero ([ds = true]; the library leaves
+    duration 0 undefined there and the counter wraps) - the lowered machine has the trace of the coroutine semantics. *)
+Theorem C16_lower_wait_rt_correct :
+  forall (ds : bool) (p : stmt), in_grammar_dur ds p = true ->
+  forall ins, Forall (fun i => okd true ds (in_bits i)) ins ->
+    traceB (mstepZ (lower p)) minitZ ins = traceB (ref_step p) rinit ins.
+Proof. exact lower_correct_dur. Qed.
+Print Assumptions C16_lower_wait_rt_correct.
+
+Example C16_lower_wait_rt_nonvacuous :
+  in_grammar_dur true (Seq (Eff 1) (Seq (WaitIn false) (Seq (Eff 2) (Seq (WaitIn true) (Eff 3))))) = true /\
+  okd true true (in_bits [VL false; VL true; VV KUns 3 5]).
+Proof. exact wait_rt_example. Qed.
+Print Assumptions C16_lower_wait_rt_nonvacuous.
+
 (** the excluded case is the known finding: wait_for(1) as the very first action resumes in the same clock
     in the code and in the model of the lowering; the coroutine semantics resumes one clock later *)
 Theorem C16_lower_wait1_first_refuted :
